@@ -73,7 +73,12 @@ func (comp DefaultCompiler) Compile(stmts []*gripql.GraphStatement, opts *gdbi.C
 	ps := pipeline.NewPipelineState(stmts)
 	if opts != nil {
 		ps.LastType = opts.PipelineExtension
-		ps.MarkTypes = opts.ExtensionMarkTypes
+		//compiling adds the marks of the new statements: work on a copy, the caller's map
+		//(the mark types of a stored job, shared by every resume of that job) must not change
+		ps.MarkTypes = map[string]gdbi.DataType{}
+		for k, v := range opts.ExtensionMarkTypes {
+			ps.MarkTypes[k] = v
+		}
 	}
 
 	procs := make([]gdbi.Processor, 0, len(stmts))
